@@ -100,7 +100,7 @@ def body(kind, k, sw):
                          U.Degree(3), U.MOA(2), U.Degree(1), a_, [pb.Wind(U.MPH(4), U.Degree(80), U.Yard(50)), pb.Wind(U.MPH(2), U.Degree(10))])
             obs.append([bits(s_.barrel_elevation.raw_value), bits(s_.barrel_azimuth.raw_value), [bits(w_.until_distance.raw_value) for w_ in s_.winds]])
             c_ = pb.Calculator(_config={'cMaxIterations': 5 + k})
-            obs.append(H.digest(H.fp(c_._config)))
+            obs.append(H.digest(H.fp(tuple(c_._calc._config))))      # the EFFECTIVE settings of the new calculator (c_._config is just the dict that was passed in)
             return ['ok', obs]
         if kind == 'sight':
             res = []
